@@ -1,6 +1,7 @@
 package checks
 
 import (
+	"bytes"
 	"encoding/json"
 	"fmt"
 	"regexp"
@@ -23,6 +24,9 @@ type c10Case struct {
 	Cfg       sut.Config `json:"cfg"`
 	Spec      PipeSpec   `json:"spec"`
 	KillFirst bool       `json:"kill_backend_conns_first,omitempty"` // the nodes drop their connections right before the case: the first requests find a cold pool
+	// NodePause > 0: the nodes stop reading for this many ms while one client pipelines big writes to one node
+	// (4 KiB socket buffers on both sides): the proxy's writes to the node are partial
+	NodePause int `json:"node_pause_ms,omitempty"`
 }
 
 var c10Token = regexp.MustCompile(`c(\d+)r(\d+)k\d+`)
@@ -30,6 +34,27 @@ var c10Token = regexp.MustCompile(`c(\d+)r(\d+)k\d+`)
 func c10Gen(t *rapid.T) c10Case {
 	var c c10Case
 	c.Cfg = rapid.SampledFrom(shardPick([]sut.Config{{ServerConns: 1}, {ServerConns: 1, DisableSlave: true}, {ServerConns: 1, Password: "pw"}, {ServerConns: 1, DisableSlave: true, Password: "pw2"}}, 2)).Draw(t, "cfg")
+	if rapid.IntRange(0, 15).Draw(t, "backedup") == 0 {
+		c.Cfg = sut.Config{ServerConns: 1, DisableSlave: true, SndBuf: 4096}
+		c.NodePause = rapid.SampledFrom([]int{20, 50, 90}).Draw(t, "pause")
+		slot := rapid.SampledFrom([]int{100, 6000, 12000}).Draw(t, "slot")
+		n := rapid.IntRange(8, 40).Draw(t, "nbig")
+		sz := rapid.SampledFrom([]int{1500, 3000, 9000}).Draw(t, "valsize")
+		if n*sz > 120000 {
+			n = 120000 / sz // a 4 KiB window moves only tens of KB per second
+		}
+		var cs ClientSpec
+		for i := 0; i < n; i++ {
+			seed := []byte(fmt.Sprintf("<%d>", i))
+			cs.Reqs = append(cs.Reqs, Req{Name: Bin("set"), Args: []Bin{keyFor(slot+i%3, 0, i, 0), Bin(bytes.Repeat(seed, sz/len(seed)))}})
+		}
+		k := keyFor(slot, 0, 900, 0)
+		v := Bin("written-last")
+		cs.Reqs = append(cs.Reqs, Req{Name: Bin("SET"), Args: []Bin{k, v}}, Req{Name: Bin("GET"), Args: []Bin{k}})
+		c.Spec.Values = []Value{{Key: k, Val: v, Store: true}}
+		c.Spec.Clients = []ClientSpec{cs}
+		return c
+	}
 	c.KillFirst = rapid.IntRange(0, 2).Draw(t, "killfirst") == 0
 	// concentrate on 1-3 nodes
 	nodeSlots := [][]int{{0, 1, 100, 5460}, {5461, 5462, 8000, 10922}, {10923, 12000, 16383}}
@@ -85,6 +110,15 @@ func c10Gen(t *rapid.T) c10Case {
 
 func c10Exec(c *c10Case) []Discrepancy {
 	f := getFixture("C10", c.Cfg, 3, 1)
+	if c.Cfg.SndBuf > 0 && !f.smallRecv {
+		f.Cluster.SetRecvBuf(4096)
+		f.Cluster.CloseDataConns(-1, false)
+		time.Sleep(30 * time.Millisecond)
+		f.smallRecv = true
+	}
+	if c.NodePause > 0 {
+		f.Cluster.PauseReads(time.Duration(c.NodePause) * time.Millisecond)
+	}
 	ds := c10Run(f, c)
 	if len(ds) > 0 {
 		dropFixture(f)
@@ -159,6 +193,9 @@ func c10Classify(c *c10Case) (bool, []string) {
 	}
 	if c.KillFirst {
 		cls = append(cls, "cold-pool")
+	}
+	if c.NodePause > 0 {
+		cls = append(cls, "node-not-reading-while-big-writes-are-pipelined")
 	}
 	if len(c.Spec.Moved) > 0 {
 		cls = append(cls, "writes-then-read-on-a-moved-slot")
